@@ -291,6 +291,12 @@ def _validate(ctx, case, rq, w, t, wanted, model, min_conf, dust, netinfo, stage
                 bad('output.not_nonneg_int', 'output value %r (%s)' % (v, type(v)))
     if fee is None or fee < 0:
         bad('fee.negative', 'fee %r' % (fee,))
+    if isinstance(rq.get('fee'), int) and not isinstance(rq.get('fee'), bool) and rq['fee'] > 0 and \
+            stage in ('create', 'send', 'send_to', 'sweep') and fee < rq['fee']:
+        # an explicit fee the funds cannot pay means insufficient funds: the request has to fail (sub-dust change
+        # may be ADDED to the fee, never taken from it)
+        bad('fee.below_requested', 'transaction pays fee %d, the request named %d: the selected inputs do not cover '
+            'outputs + fee' % (fee, rq['fee']))
     if sum(in_vals) != sum(int(v) for v in out_vals) + fee:
         bad('conservation', 'inputs %d != outputs %d + fee %d' % (sum(in_vals), sum(int(v) for v in out_vals), fee))
     # -- serialisation read independently -------------------------------------------------------------
@@ -420,7 +426,8 @@ def _strategy(ctx):
     def amount():
         return st.one_of(amount_frac(), amount_frac(), st.fixed_dictionaries({
             'of': st.sampled_from(['largest', 'confirmed']),
-            'leave': st.sampled_from([0, 1, 500, 999, 1000, 1001, 1500, 2500, 6000])}))
+            # (negative: the amount + fee exceeds the reference UTXO by 1 .. just over the dust amount)
+            'leave': st.sampled_from([0, 1, 500, 999, 1000, 1001, 1500, 2500, 6000, -1, -200, -999, -1000, -1001])}))
 
     def amount_frac():
         frac = st.sampled_from([(1, 100), (1, 10), (1, 10), (1, 3), (1, 2), (1, 2), (2, 3), (9, 10), (99, 100),
